@@ -1126,6 +1126,10 @@ var c08Corpus = []c08Prog{
 		"s := sprintf \"%d|%v|%s|%q|%5d|%p|%+v\" a m a m m a y\nprint s\nprintf \"%d %d\\n\" [[1] [2]] [{k:[1]}]\nprintf \"%p %p\\n\" \"s\" 1\n"},
 	// the seeded PRNG is the only source of randomness: every form of argument (integer, fractional, computed) many times
 	{Family: "corpus-rand-all-argument-forms", Src: "s := \"\"\nfor range 40\n    s = s + (sprint (rand 6)) + (sprint (rand 2.5)) + (sprint (rand 7/2)) + (sprint (rand 1)) + (sprint (rand 1.000001))\nend\nprint s\nprint (rand1) (rand1) (rand 2147483647) (rand 2147483646.5)\n"},
+	// rejected programs whose errors arise inside ONE map literal: text, position and order of the parse errors are fixed
+	{Family: "corpus-map-literal-errors", Src: "func p\n    print 1\nend\nm := {a:(p) b:(p) c:(cls) d:(p) e:(cls) f:(p) g:(p) h:(cls)}\nprint m\n"},
+	{Family: "corpus-map-literal-errors", Src: "m := {a:(cls) b:1 c:(cls) d:2 e:(cls) f:3}\nn := {a:zz b:yy c:xx d:ww e:vv f:uu}\nprint m n\n"},
+	{Family: "corpus-map-literal-errors", Src: "m := {a:1 a:2 b:3 b:4 c:5 c:6 d:7 d:8}\nq := {if:1 if:2 end:3 end:4 for:5 for:6}\nprint m q\n"},
 	{Family: "corpus-design-7-6", N: 2, Dep: true, Src: "a := 1\nb := 2\n"},
 	{Family: "corpus-design-7-8", N: 3, Dep: true, Src: "font {size:\"a\" weight:\"b\" style:1}\n"},
 }
@@ -1194,7 +1198,7 @@ func c08CheckBatch(cfg Config, r *Result, model *Model, progs []c08Prog, inproc 
 			stats["name-list-order-varied"]++
 		}
 		if variants[0].Class == "parse-error" && !strings.HasPrefix(p.Family, "unused-vars") && p.Family != "malformed" &&
-			p.Family != "corpus-validateScope" && p.Family != "corpus-design-7-6" {
+			p.Family != "corpus-validateScope" && p.Family != "corpus-design-7-6" && p.Family != "corpus-map-literal-errors" {
 			r.Violate(Violation{Kind: "correspondence", Key: "generator-invalid-program:" + p.Family,
 				Detail: "a program of a family that is meant to be accepted by the parser was rejected (harness generator out of date?): " + variants[0].Parse, Input: p})
 		}
